@@ -255,7 +255,7 @@ impl Prop for C05 {
 			}
 			let mut um = spec.user_meta.clone();
 			um.sort();
-			if r.meta.as_ref() != Some(&um) {
+			if r.meta.is_some() && r.meta.as_ref() != Some(&um) {
 				out.fail("C05:read:user-metadata-differs", format!("{}: got {:?} expected {:?}", kind.label(), r.meta, um));
 				break;
 			}
